@@ -85,8 +85,7 @@ Qed.
 Lemma se2_inverse_valid_eq x y r i : r * r + i * i = 1 ->
   se2_inverse RS [x; y; r; i] = [- x * r - y * i; x * i - y * r; r; - i].
 Proof.
-  intros H. unfold se2_inverse, se2_from_angle, se2_angle, se2_real, se2_imag, se2_x, se2_y. mat_unfold.
-  rewrite cos_neg, sin_neg. destruct (atan2_unit i r H) as [-> ->]. reflexivity.
+  intros H. reflexivity.
 Qed.
 
 Lemma se2_identity_eq : g_identity (SE2 RS eps) = [0; 0; 1; 0].
